@@ -3551,6 +3551,20 @@ func (c *Ctx) globalMut(rule string, pkgRels []string, clause string) (n, nviol 
 									}
 								}
 							}
+							// a package-level object behind an interface or a pointer (a shared hasher, buffer,
+							// encoder): the methods that feed or reset it mutate what every call shares
+							if v := isGlobal(sel.X); v != nil && !bad.IsValid() {
+								_, isIface := v.Type().Underlying().(*types.Interface)
+								_, isPtrVar := v.Type().(*types.Pointer)
+								if isIface || isPtrVar {
+									switch g.Name() {
+									case "Reset", "Write", "WriteString", "WriteByte", "WriteRune", "Seed", "Grow", "Truncate", "ReadFrom", "Encode", "Push", "Pop":
+										if !isErrorType(v.Type()) {
+											bad, bv, how = x.Pos(), v, "fed or reset through "+g.Name()+"()"
+										}
+									}
+								}
+							}
 						}
 					}
 				}
